@@ -129,6 +129,21 @@ static std::string check_case(const CondCase& c, CaseInfo& ci, const Src* srcp, 
                   got ? "match" : "no match", expect ? "match" : "no match",
                   v.defined() ? (truthy(v) ? "true" : "false") : "undefined");
     }
+    // SCAN_FLAGS_FAST_MODE lets the engine stop collecting matches of a string once found, but only for strings
+    // whose condition needs nothing but their presence: the verdicts must be those of the normal scan
+    Trace tf = scan_simple(rules.r, B, 1 /*SCAN_FLAGS_FAST_MODE*/, false);
+    if (tf.rc != 0)
+      return strf("fast-mode scan of buffer %zu returned %d", bi, tf.rc);
+    for (size_t r = 0; r < c.conds.size(); r++)
+    {
+      std::string name = strf("r%zu", r);
+      const MsgRec* m = tf.rule("default:" + name);
+      if (!m)
+        return "rule " + name + " not reported in fast mode";
+      if ((m->kind == 'M') != cx.rules[name])
+        return strf("rule %s on buffer %zu: %s in fast mode (SCAN_FLAGS_FAST_MODE) but %s in a normal scan", name.c_str(), bi,
+                    m->kind == 'M' ? "match" : "no match", cx.rules[name] ? "match" : "no match");
+    }
   }
   if (stats)
   {
